@@ -19,6 +19,7 @@ EXPLANATION = EXPLANATION + " Added while testing against seeded changes: " + EX
 EXPLANATION = EXPLANATION + " Rounds 12-13: (R7) the request / negotiation readers read from the caller's reader itself (no take / chain / buffering adaptor between the reader parameter and a read call)."
 EXPLANATION = EXPLANATION + ' Rounds 14-15 and the value sweep: ports are exact in the writers and readers (R1-R4); the domain buffer length is the length octet itself (R3); (R8) no normalising conversion (to_canonical, case folding, trimming, lossy UTF-8, byte swapping) in penguin-socks.'
 EXPLANATION = EXPLANATION + " Rounds 16-17: (R9) no branch on a request's contents leads to a return that has not passed a reply writer (infrastructure failures aside)."
+EXPLANATION = EXPLANATION + ' Round 18: saturating / wrapping arithmetic on 8- and 16-bit operands is no longer read as plain + / - by the bounds rules (a length octet of 254 + 2 saturates).'
 ASSUMPTIONS = [
     "tokio AsyncReadExt::read_uN read big-endian fixed widths; read_exact fills the whole buffer; "
     "read_until stops at the delimiter or EOF (library contracts)",
